@@ -288,6 +288,38 @@ func wasmScenarios(c *ctx) []wasmEvent {
 			[]JArg{jStr(b32(zeroRichKey)), jStr(refHOTP(zeroRichKey, zc, z.D, z.Alg)), jNum(zc), jStr(d), jStr(a), jNum(1)},
 			func(e *wasmEvent) { e.Orc = allAlgWindow(zeroRichKey, zc, 1+margin) })
 	}
+	// provisioning URLs: the full grid type x hash x digits, and issuers / accounts with non-ASCII text
+	for _, typ := range []string{"totp", "hotp"} {
+		for _, a := range []string{"SHA1", "SHA256", "SHA512"} {
+			for _, d := range []string{"6", "8", "9", "10"} {
+				iss := []string{"Example", "Exämple Ünï", "日本 株式会社", "a b+c"}[(len(a)+len(d))%4]
+				g.add(fmt.Sprintf("C20/urlgrid/%s/%s/%s", typ, a, d), "generateOTPURL", "wellformed", false,
+					[]JArg{jStr(typ), jStr(iss), jStr("alice@exämple.com"), jStr(b32np(c.randBytes(10))), jStr(d), jStr(a)}, nil)
+			}
+		}
+	}
+	// instants at step boundaries (remainder 0, 1, period-1) for several periods, through generation and validation
+	for _, per := range []uint64{1, 2, 30, 60, 3599, 3600} {
+		k, sec := g.key()
+		for _, step := range []uint64{0, 1, 12, 1 << 20} {
+			for _, rem := range []uint64{0, 1, per - 1} {
+				if rem >= per {
+					continue
+				}
+				ts, st, kk, pp := step*per+rem, step, k, per
+				g.add(fmt.Sprintf("C20/stepb/g/p%d/n%d/r%d", per, step, rem), "generateTOTP", "wellformed", false,
+					[]JArg{jStr(sec), jNum(ts), jStr("6"), jStr("SHA1"), jNum(pp)}, func(e *wasmEvent) {
+						e.Step0 = W64(st)
+						e.Orc = allAlgWindow(kk, st, 0)
+					})
+				g.add(fmt.Sprintf("C20/stepb/v/p%d/n%d/r%d", per, step, rem), "validateTOTP", "wellformed", false,
+					[]JArg{jStr(sec), jStr(refHOTP(kk, st, 6, 0)), jNum(ts), jStr("6"), jStr("SHA1"), jNum(0), jNum(pp)}, func(e *wasmEvent) {
+						e.Step0 = W64(st)
+						e.Orc = allAlgWindow(kk, st, margin)
+					})
+			}
+		}
+	}
 	// malformed calls: every argument position x every JS type, too few / too many arguments; each followed by a probe
 	bads := []JArg{jOther("undefined"), jOther("null"), jOther("nan"), jNeg("-1"), jNeg("-7"), jHuge("1e300"), jOther("inf"), jOther("boolean"), jOther("object"), jOther("array"), jStr(""), jOther("function")}
 	id := 0
